@@ -612,6 +612,9 @@ class Loader:
                     _LOGGER.info('Restore identity %s => %s',
                                  appname, identity)
                     app.force_set_identity(identity)
+                if app.placement_expiry != expires:
+                    # Lease was re-evaluated: stored placement must follow.
+                    self._record_placement(servername, appname)
 
         return placed_apps, restored_apps
 
@@ -712,4 +715,8 @@ class Loader:
 
     def _record_server_state(self, servername):
         """Record server state.
+        """
+
+    def _record_placement(self, servername, appname):
+        """Record app placement.
         """
